@@ -210,6 +210,35 @@ structure St (α : Type) where
   ctext : List (Tag × α) := []
   out : List (Hunk α) := []
 
+/-- "End chunk with common lines for context": `if len(ctext) > 0 { n := min(..); ...; emit }`.
+`ctext1` / `count1` are `ctext` / `count` after the mismatched lines were appended. -/
+def closeChunk (x : List α) (st : St α) (ctext1 : List (Tag × α)) (count1 start en : Nat × Nat) : Option (St α) :=
+  if Gen.Diff.closeCond ctext1.length then
+    let n := Gen.Diff.closeN en.1 en.2 start.1 start.2
+    if n < 0 then none else
+    match slice x start.1 (start.1 + n.toNat) with
+    | none => none
+    | some comm =>
+      let cx := count1.1 + comm.length
+      let cy := count1.2 + comm.length
+      let hx := if Gen.Diff.hdrIncX cx cy then st.chunk.1 + 1 else st.chunk.1
+      let hy := if Gen.Diff.hdrIncY cx cy then st.chunk.2 + 1 else st.chunk.2
+      some { st with count := (0, 0), ctext := [],
+                     out := st.out ++ [⟨hx, cx, hy, cy, ctext1 ++ tagged .ctx comm⟩] }
+  else some { st with count := count1, ctext := ctext1 }
+
+/-- "Otherwise start a new chunk": `chunk = pair{end.x - C, end.y - C}; for .. x[chunk.x:end.x] ..; done = end`. -/
+def openChunk (x : List α) (st2 : St α) (en : Nat × Nat) : Option (St α) :=
+  let cx := Gen.Diff.newChunkX en.1 en.2
+  let cy := Gen.Diff.newChunkY en.1 en.2
+  if cx < 0 then none else
+  match slice x cx.toNat en.1 with
+  | none => none
+  | some comm =>
+    some { st2 with chunk := (cx, cy), done := en,
+                    count := (st2.count.1 + comm.length, st2.count.2 + comm.length),
+                    ctext := st2.ctext ++ tagged .ctx comm }
+
 /-- One iteration of the loop for a match `m` that is not skipped. `true` = `break`. -/
 def step (x y : List α) (st : St α) (m : Nat × Nat) : Option (St α × Bool) :=
   match expandStart x y st.done.1 st.done.2 m.1 m.2 with
@@ -228,36 +257,14 @@ def step (x y : List α) (st : St α) (m : Nat × Nat) : Option (St α × Bool) 
         some ({ st with done := en, count := (count1.1 + comm.length, count1.2 + comm.length),
                         ctext := ctext1 ++ tagged .ctx comm }, false)
     else
-      -- end chunk with common lines for context
-      let closed : Option (St α) :=
-        if Gen.Diff.closeCond ctext1.length then
-          let n := Gen.Diff.closeN en.1 en.2 start.1 start.2
-          if n < 0 then none else
-          match slice x start.1 (start.1 + n.toNat) with
-          | none => none
-          | some comm =>
-            let cx := count1.1 + comm.length
-            let cy := count1.2 + comm.length
-            let hx := if Gen.Diff.hdrIncX cx cy then st.chunk.1 + 1 else st.chunk.1
-            let hy := if Gen.Diff.hdrIncY cx cy then st.chunk.2 + 1 else st.chunk.2
-            some { st with count := (0, 0), ctext := [],
-                           out := st.out ++ [⟨hx, cx, hy, cy, ctext1 ++ tagged .ctx comm⟩] }
-        else some { st with count := count1, ctext := ctext1 }
-      match closed with
+      match closeChunk x st ctext1 count1 start en with
       | none => none
       | some st2 =>
         if Gen.Diff.eofCond en.1 en.2 x.length y.length then some (st2, true)
         else
-          -- start a new chunk
-          let cx := Gen.Diff.newChunkX en.1 en.2
-          let cy := Gen.Diff.newChunkY en.1 en.2
-          if cx < 0 then none else
-          match slice x cx.toNat en.1 with
+          match openChunk x st2 en with
           | none => none
-          | some comm =>
-            some ({ st2 with chunk := (cx, cy), done := en,
-                             count := (st2.count.1 + comm.length, st2.count.2 + comm.length),
-                             ctext := st2.ctext ++ tagged .ctx comm }, false)
+          | some st3 => some (st3, false)
   | _, _ => none
 
 /-- `for _, m := range tgs(x, y) { ... }`; falling off the end returns what was printed. -/
